@@ -38,8 +38,8 @@ def body(run):
     gens = cfg(3 if q else 4, True, asis, STATEFUL, "INVARIANT InvEmit")
     res = run.parallel(
         lambda: run.tlc("ServerLive", "ServerLive", "ServerLive_mc.cfg" if q else "ServerLive_mc3.cfg",
-                        label="contract: every request sequence is answered (InvAliveAndResponsive, InvItemInSub)", timeout=3000),
-        lambda: run.tlc("ServerLive", "ServerLive", "ServerLive_dev.cfg", expect="violation", count=False,
+                        label="contract: every request sequence is answered (InvAliveAndResponsive, InvItemInSub)", timeout=3000, workers=4),
+        lambda: run.tlc("ServerLive", "ServerLive", "ServerLive_dev.cfg", expect="violation", count=False, workers=4,
                         label="deviation demo: the four root causes kill the server"),
         lambda: run.tlc("ServerLive", "ServerLive", "gen1.cfg", mode="gen", files={"gen1.cfg": gen1}, count=False,
                         label="rows: every (request type, argument class, session class) once"),
